@@ -30,6 +30,8 @@
 #include <csetjmp>
 #include <csignal>
 #include <sys/time.h>
+#include <sys/wait.h>
+#include <unistd.h>
 #include "givinteger.h"
 #include "givrandom.h"
 #include "givranditer.h"
@@ -770,6 +772,34 @@ static std::string mii_once(uint64_t seed, const std::string& size, const std::s
     return o.str() + " ; " + trace_str();
 }
 
+// gmpshare <rii|mii> <seed1> <seed2> <k> <p>   GMP's generator is process-wide: two live iterators A(seed1), B(seed2) share it.
+//   run 1: A, 2k draws through A.   run 2: A, k draws, construct B, k more draws through A.   run 3: A, B, k draws through A.
+//   prints "run1 / run2 / run3 ; trace of all three runs"
+template <class IT, class MK> static std::string gmpshare_runs(MK mk, uint64_t s1, uint64_t s2, int k) {
+    g_trace.clear();
+    std::ostringstream o;
+    for (int run = 1; run <= 3; ++run) {
+        std::unique_ptr<IT> A(mk(s1)), B;
+        if (run == 3) B.reset(mk(s2));
+        int n = (run == 1) ? 2 * k : (run == 2 ? 2 * k : k);
+        for (int i = 0; i < n; ++i) {
+            if (run == 2 && i == k) B.reset(mk(s2));
+            Integer a(preset_int(i)); A->random(a);
+            o << (i ? " " : "") << S(a);
+        }
+        if (run < 3) o << " / ";
+    }
+    return o.str() + " ; " + trace_str();
+}
+struct MkRii { ZRing<Integer> Z; RandomIntegerIterator<true, false>* operator()(uint64_t s) { return new RandomIntegerIterator<true, false>(Z, s); } };
+struct MkMii { Modular<Integer> F; MkMii(const Integer& p) : F(p) {} Modular<Integer>::RandIter* operator()(uint64_t s) { return new Modular<Integer>::RandIter(F, (size_t) s); } };
+struct ShareCtx { std::string cls; uint64_t s1, s2; int k; std::string p; };
+static std::string gmpshare_f(void* c) {
+    ShareCtx* x = (ShareCtx*) c;
+    if (x->cls == "rii") { MkRii m; return gmpshare_runs<RandomIntegerIterator<true, false> >(m, x->s1, x->s2, x->k); }
+    MkMii m((Integer(x->p.c_str()))); return gmpshare_runs<Modular<Integer>::RandIter>(m, x->s1, x->s2, x->k);
+}
+
 // ---------------------------------------------------------------- Part D: RecInt
 template <size_t K> static std::string ru_once(uint64_t seed, int n) {
     RecInt::srand(seed);
@@ -955,6 +985,11 @@ static std::string dispatch(const std::string& kind, const Args& a) {
         c.ctor = a.size() > 4 ? atoi(a[4].c_str()) : 3; c.nz = a.size() > 5 ? atoi(a[5].c_str()) : 0;
         return (c.seed && c.ctor != 1) ? twice(mii_f, &c) : mii_f(&c);
     }
+    if (kind == "gmpshare") {
+        if (a.size() < 5) return "BAD-LINE";
+        ShareCtx c; c.cls = a[0]; c.s1 = pu64(a[1]); c.s2 = pu64(a[2]); c.k = atoi(a[3].c_str()); c.p = a[4];
+        return twice(gmpshare_f, &c);
+    }
     if (kind == "rm") {     // rm <K> <mg: 0 = rmint<K,MGI>, 1 = rmint<K,MGA>, 2 = rint<K>> <p> <seed> <n>
         if (a.size() < 5) return "BAD-LINE";
         RmCtx c; c.K = atoi(a[0].c_str()); c.mg = atoi(a[1].c_str()); c.p = a[2]; c.seed = pu64(a[3]); c.n = atoi(a[4].c_str());
@@ -966,6 +1001,34 @@ static std::string dispatch(const std::string& kind, const Args& a) {
         return twice(ru_f, &c);
     }
     return "UNKNOWN-KIND";
+}
+
+// fork <ms> <kind> <args...> : the case is executed in a forked child under a CPU-time limit of <ms> (ITIMER_PROF, default action):
+//   calls that may divide by zero, write outside a vector or never return.  Prints the child's result line, or "CRASH <signal>",
+//   or "TIMEOUT" (the child used up its CPU budget).
+static std::string in_child(long ms, const std::string& kind, const Args& a) {
+    int fd[2];
+    if (pipe(fd) != 0) return "BAD-PIPE";
+    std::cout.flush();
+    pid_t pid = fork();
+    if (pid < 0) return "BAD-FORK";
+    if (pid == 0) {
+        close(fd[0]);
+        signal(SIGPROF, SIG_DFL);
+        arm(ms);
+        std::string out = dispatch(kind, a);
+        size_t off = 0;
+        while (off < out.size()) { ssize_t w = write(fd[1], out.data() + off, out.size() - off); if (w <= 0) break; off += (size_t) w; }
+        _exit(0);
+    }
+    close(fd[1]);
+    std::string out; char buf[4096]; ssize_t r;
+    while ((r = read(fd[0], buf, sizeof buf)) > 0) out.append(buf, (size_t) r);
+    close(fd[0]);
+    int st = 0; waitpid(pid, &st, 0);
+    if (WIFSIGNALED(st)) return WTERMSIG(st) == SIGPROF ? "TIMEOUT" : "CRASH " + std::to_string(WTERMSIG(st));
+    if (!WIFEXITED(st) || WEXITSTATUS(st) != 0) return "CRASH exit " + std::to_string(WEXITSTATUS(st));
+    return out;
 }
 
 int main(int argc, char** argv) {
@@ -999,6 +1062,11 @@ int main(int argc, char** argv) {
         if (!is) continue;
         Args a; while (is >> t) a.push_back(t);
         if (sigsetjmp(jb, 1)) { std::cout << "TIMEOUT" << std::endl; continue; }
+        if (kind == "fork") {
+            if (a.size() < 2) { std::cout << "BAD-LINE\n"; continue; }
+            std::cout << in_child(atol(a[0].c_str()), a[1], Args(a.begin() + 2, a.end())) << "\n";
+            continue;
+        }
         arm((kind == "lcg" || kind == "ext" || kind == "gfqx" || kind == "gfqxchk") ? limit_ms + 5000 : limit_ms);     // GivRandom draws have no loop; long sequences need time to print
         std::string out = dispatch(kind, a);
         arm(0);
